@@ -7,6 +7,7 @@ package tree
 import (
 	"slices"
 	"strings"
+	"sync/atomic"
 
 	"github.com/issue9/mux/v9/internal/syntax"
 	"github.com/issue9/mux/v9/types"
@@ -23,7 +24,8 @@ type node[T any] struct {
 	segment *syntax.Segment
 	pattern string
 
-	methodIndex int // 在 methodIndexes 中的索引值
+	methodIndex int                               // 在 methodIndexes 中的索引值
+	methods     atomic.Pointer[methodIndexEntity] // methodIndex 对应的内容，可在不加锁的情况下读取。
 	handlers    map[string]T
 
 	// 保存着 node 实例在 children 中的下标。
@@ -264,6 +266,7 @@ func splitNode[T any](n *node[T], pos int) (*node[T], error) {
 	c := ret.newChild(segs[1])
 	c.handlers = n.handlers
 	c.methodIndex = n.methodIndex
+	c.methods.Store(n.methods.Load())
 	c.children = n.children
 	c.indexes = n.indexes
 	for _, item := range c.children {
